@@ -84,6 +84,28 @@ func mutate(stream []byte, ps *container.Stream, m totMut, ckSize int) []byte {
 		}
 		h.BlockSize = sizes[int(m.B)%len(sizes)]
 		return rebuild(h, allPayloads(), true)
+	case "hdr-blocksize-tight":
+		// smallest / near-smallest declared block size whose decode buffer (B + max(512, B/16)) still holds the real
+		// block: the decoder runs with its buffers exactly full
+		h := ps.Hdr
+		L := 0
+		for _, b := range ps.Blocks {
+			L = max(L, b.PreLen)
+		}
+		L = max(L, h.BlockSize) // the original (undamaged) block length is at most the block size
+		if len(ps.Blocks) > 0 && m.C%2 == 0 {
+			L = min(h.BlockSize, int(m.A)) // data length of the first block when the recipe has a single short block
+		}
+		B := (L * 16 / 17) &^ 15
+		for B+max(512, B>>4) < L {
+			B += 16
+		}
+		B += 16 * (int(m.B)%3 - 1)
+		if B < 1024 {
+			B = 1024
+		}
+		h.BlockSize = B
+		return rebuild(h, allPayloads(), true)
 	case "hdr-size":
 		h := ps.Hdr
 		h.SzMask = 1 + int(m.B)%3
@@ -304,11 +326,14 @@ func runTotCase(c *totCase) (res totResult) {
 	in := mutate(stream, ps, c.Mut, int(c.R.Cfg.Checksum))
 	if hc != nil {
 		// headerless reader: the stream starts at the first block; header mutations become parameter mismatches
-		if len(in) >= ps.Hdr.Bits/8 && c.Mut.Kind != "random-bytes" && c.Mut.Kind != "truncate" {
-			in = in[ps.Hdr.Bits/8:]
-		}
-		if c.Mut.Kind == "hdr-size" {
-			in = in[min(len(in), 2*(1+int(c.Mut.B)%3)):] // the size field is not part of a headerless stream: drop it
+		if c.Mut.Kind != "random-bytes" && c.Mut.Kind != "truncate" {
+			hb := ps.Hdr.Bits / 8
+			if mh, err := container.ParseHeader(in); err == nil {
+				hb = mh.Bits / 8 // the mutated header may carry a size field
+			}
+			if len(in) >= hb {
+				in = in[hb:]
+			}
 		}
 		if strings.HasPrefix(c.Mut.Kind, "hdr-") {
 			hc.BlockSize = []uint{1024, 4096, 1 << 20, uint(c.R.Cfg.BlockSize) * 2}[int(c.Mut.B)%4]
@@ -390,11 +415,14 @@ func c03(run *core.Run, replay string) {
 	}
 	big := []recipe{
 		{"seed-big-bwt", cfg("BWT", "NONE", 8<<20, 1, 0), "html", 4<<20 + 70000, S},
+		// one block of 136 x 31001 bytes: 8 x odd, equal to B + B/16 for the legal block size B = 128 x 31001
+		{"seed-big-bwt-tight", cfg("BWT", "HUFFMAN", 8<<20, 1, 0), "html", 136 * 31001, S},
+		{"seed-big-bwts-tight", cfg("BWTS", "ANS0", 8<<20, 1, 32), "text", 136 * 31003, S},
 		{"seed-big-bwts", cfg("BWTS", "NONE", 8<<20, 1, 0), "text", 4<<20 + 70000, S},
 		{"seed-big-lz", cfg("LZ", "NONE", 8<<20, 1, 32), "repeatblocks", 5 << 20, S},
 		{"seed-big-rolz", cfg("ROLZ", "NONE", 8<<20, 1, 0), "html", 5 << 20, S},
 	}
-	kinds := []string{"hdr-entropy", "hdr-transform", "hdr-blocksize", "hdr-size", "hdr-version", "hdr-checksum-size", "len-prefix", "len-width", "mode", "skipflags", "stored-len",
+	kinds := []string{"hdr-entropy", "hdr-transform", "hdr-blocksize", "hdr-blocksize-tight", "hdr-size", "hdr-version", "hdr-checksum-size", "len-prefix", "len-width", "mode", "skipflags", "stored-len",
 		"codec-header", "codec-header", "codec-header", "codec-header", "payload-random", "payload-random", "truncate", "dup-block", "drop-block", "swap-blocks", "garbage", "forged-copy-block", "random-bytes"}
 	var tcs []*totCase
 	per := run.Pick(3, 60)
@@ -427,6 +455,11 @@ func c03(run *core.Run, replay string) {
 				}
 			}
 			nbig = run.Pick(4, 40)
+		}
+		if strings.Contains(big[bi].Name, "tight") {
+			for q := 0; q < 6; q++ {
+				tcs = append(tcs, &totCase{R: big[bi], Mut: totMut{Kind: "hdr-blocksize-tight", A: int64(big[bi].Size), B: int64(q), C: 0}, Jobs: []uint{1, 4, 2}[q%3]})
+			}
 		}
 		for q := 0; q < nbig; q++ {
 			k := []string{"codec-header", "stored-len", "payload-random", "mode", "len-prefix"}[q%5]
